@@ -212,19 +212,28 @@ def run_stream(binary, args, ops, timeout=1800):
     return p.returncode, lines
 
 
-def run_impl(cfg, ops):
+_META = re.compile(r" type_name=\S+")
+
+
+def strip_meta(lines):
+    """`type_name=` (AisMessageType::name()) is modelled and compared by tools/extras.py only: no
+    property speaks about it, so it must not be able to raise any property's alarm."""
+    return [_META.sub("", l) if "type_name=" in l else l for l in lines]
+
+
+def run_impl(cfg, ops, keep_meta=False):
     """Implementation answers; if the process dies (abort, stack overflow) the missing answers are 'abort'."""
     rc, lines = run_stream(harness_bin(cfg), [], ops)
     if len(lines) < len(ops):
         lines += ["abort"] * (len(ops) - len(lines))
-    return lines
+    return lines if keep_meta else strip_meta(lines)
 
 
-def run_model(cfg, ops):
+def run_model(cfg, ops, keep_meta=False):
     rc, lines = run_stream(DRIVER, [cfg], ops)
     if len(lines) < len(ops):
         lines += ["model-abort"] * (len(ops) - len(lines))
-    return lines
+    return lines if keep_meta else strip_meta(lines)
 
 
 def hexs(b):
